@@ -228,3 +228,23 @@ take_harness!(c11_take_until_secure_returns_at_least_20_of_21_estimate_max, {
 pub(crate) fn push_raw(c: &mut ClosestNodes, n: Node) {
     c.nodes.push(n);
 }
+
+/// quick-tier instance of the ">= min(20, available)" clause at the boundary: 21 concrete nodes, a
+/// size estimate so large that the distance criterion is met at once, no subnet requirement — the
+/// scan stops immediately, and the floor of 20 must still apply
+#[kani::proof]
+#[kani::unwind(23)]
+#[kani::stub(Id::is_valid_for_ip, stub_is_valid_for_ip)]
+fn c11_take_until_secure_keeps_the_floor_of_20_when_the_scan_stops_at_once() {
+    let t = id2(0, 0, 0);
+    let mut c = ClosestNodes { target: Id::from(t), nodes: Vec::with_capacity(21) };
+    let mut k = 0usize;
+    while k < 21 {
+        c.nodes.push(node(id2(0xFF, k as u8, 0), 20, k as u8));
+        k += 1;
+    }
+    let r = c.take_until_secure(usize::MAX, 0);
+    assert!(r.as_ptr() == c.nodes.as_ptr(), "C11: a prefix of the accumulator's order");
+    assert!(r.len() >= 20 && r.len() <= 21, "C11: at least min(20, available), whatever the scan decided");
+    core::mem::forget(c);
+}
